@@ -132,6 +132,18 @@ Theorem C20_coordinate_neighborhood_exact : forall (h : T ROps) (S : cs ROps),
   same_triangle_set (@c_triangles ROps h (c_neighborhood S)) (neighborhood_triangles (@c_triangles ROps h S)).
 Proof. exact c_neighborhood_exact. Qed.
 
+(* np.unique leaves no repeated index row, vertex or lattice cell; up-sampling distinct cells gives distinct cells *)
+Theorem C20_array_neighborhood_rows_distinct : forall (A : @atri ROps),
+  NoDup (fst (a_neighborhood A)) /\ NoDup (snd (a_neighborhood A)).
+Proof. exact a_neighborhood_rows_distinct. Qed.
+Theorem C20_array_up_sample_vertices_distinct : forall (A : @atri ROps), NoDup (snd (a_up_sample A)).
+Proof. exact (fun A => reindex_vertices_distinct (up_sample_triangles (a_triangles A))). Qed.
+Theorem C20_coordinate_neighborhood_cells_distinct : forall (S : cs ROps), NoDup (c_coords (c_neighborhood S)).
+Proof. exact (@c_neighborhood_coords_distinct ROps). Qed.
+Theorem C20_coordinate_up_sample_cells_distinct : forall (h : T ROps) (S : cs ROps),
+  NoDup (c_coords S) -> NoDup (c_coords (c_up_sample h S)).
+Proof. exact (@c_up_sample_coords_distinct ROps). Qed.
+
 (* ------------------------------------------------------------ selections; the two representations *)
 Theorem C20_array_for_indexes : forall (A : @atri ROps) (sel : list nat),
   idx_in_range A = true -> Forall (fun i => (i < length (fst A))%nat) sel ->
@@ -188,12 +200,14 @@ Example C20_hyps_satisfiable :
   /\ Forall (fun i => (i < length (fst ([(0, 1, 2); (1, 2, 3)]%nat, [(0, 0); (4, 0); (1, 3); (5, 3)])))%nat) [1; 0; 1]%nat
   /\ idx_in_range ([(0, 1, 2); (1, 2, 3)]%nat, [(0, 0); (4, 0); (1, 3); (5, 3)]) = true
   /\ idx_in_range ([(0, 1, 4)]%nat, [(0, 0); (4, 0); (1, 3); (5, 3)]) = false
+  /\ NoDup [(0, 0); (1, 0); (-1, 2)]%Z
   /\ 0 <= sqrt 3 / 2.
 Proof.
   unfold nondegenerate, inside, strictly_inside, ex_t, signed2, comb, v0, v1, v2. cbn [fst snd length].
   split; [lra|]. split; [exists (1 / 4), (5 / 12), (1 / 3); repeat split; try lra; f_equal; lra|].
   split; [exists (1 / 4), (5 / 12), (1 / 3); repeat split; try lra; f_equal; lra|].
-  split; [repeat constructor|]. split; [reflexivity|]. split; [reflexivity|]. apply Rmult_le_pos; [apply sqrt_pos|lra].
+  split; [repeat constructor|]. split; [reflexivity|]. split; [reflexivity|].
+  split; [repeat constructor; cbn; intuition discriminate|]. apply Rmult_le_pos; [apply sqrt_pos|lra].
 Qed.
 
 Print Assumptions C20_count_quadruples. Print Assumptions C20_up_sample_is_subdivision.
@@ -215,4 +229,6 @@ Print Assumptions C20_coordinate_vertices_preserved. Print Assumptions C20_check
 Print Assumptions C20_checker_neighbours_are_neighbours.
 Print Assumptions C20_array_triangles_in_range. Print Assumptions C20_array_triangles_out_of_range.
 Print Assumptions C20_array_triangle_corners_are_vertices. Print Assumptions C20_array_outputs_in_range.
+Print Assumptions C20_array_neighborhood_rows_distinct. Print Assumptions C20_array_up_sample_vertices_distinct.
+Print Assumptions C20_coordinate_neighborhood_cells_distinct. Print Assumptions C20_coordinate_up_sample_cells_distinct.
 Print Assumptions C20_lattice_children_distinct. Print Assumptions C20_lattice_child_has_unique_parent.
